@@ -306,7 +306,25 @@ func itoa(i int) string {
 
 // errorSummary: the formula of `h(args).err == nil` — the disjunction over h's returns of (path condition ∧ returned error is nil).
 func (fa *Facts) errorSummary(callee *ssa.Function, call *ssa.Call, o *Origin, depth int) *Formula {
-	if !fa.p.errHelper(callee) || depth >= 4 {
+	if depth >= 4 {
+		return nil
+	}
+	// a "first failure" runner over a literal list of checks: it succeeds iff every check does
+	if fa.p.firstFailureRunner(callee) && len(call.Call.Args) == 1 {
+		if elems, ok := sliceLiteralElems(call.Call.Args[0]); ok {
+			var conj []*Formula
+			for _, e := range elems {
+				f := fa.checkClosureSuccess(o, e, depth+1)
+				if f == nil {
+					return nil
+				}
+				conj = append(conj, f)
+			}
+			return fAnd(conj...)
+		}
+		return nil
+	}
+	if !fa.p.errHelper(callee) {
 		return nil
 	}
 	sub := &Origin{p: fa.p, fn: callee, env: map[*ssa.Parameter]*Term{}, fvenv: map[*ssa.FreeVar]*Term{},
@@ -315,6 +333,20 @@ func (fa *Facts) errorSummary(callee *ssa.Function, call *ssa.Call, o *Origin, d
 	for i, prm := range callee.Params {
 		if i < len(call.Call.Args) {
 			sub.env[prm] = o.Of(call.Call.Args[i])
+		}
+	}
+	return fa.successOfBody(callee, sub, depth)
+}
+
+// successOfBody: the disjunction, over the returns of callee, of (path condition ∧ returned error is nil), in the vocabulary the
+// prepared sub-origin maps callee's parameters / free variables to.
+func (fa *Facts) successOfBody(callee *ssa.Function, sub *Origin, depth int) *Formula {
+	if callee == nil || callee.Blocks == nil || len(callee.Blocks) > 40 {
+		return nil
+	}
+	for _, b := range callee.Blocks {
+		if b != callee.Recover && inCycle(b) {
+			return nil
 		}
 	}
 	subFacts := &Facts{p: fa.p, fn: callee, o: sub, memo: map[*ssa.BasicBlock]*Formula{}, ErrExpand: fa.ErrExpand}
@@ -364,6 +396,12 @@ func (fa *Facts) errorSummary(callee *ssa.Function, call *ssa.Call, o *Origin, d
 				et := sub.Of(ev)
 				nilAtom := cmpAtom("==", &Term{Op: "const", Name: "nil"}, et)
 				// a nested helper's error: expand it too
+				if ic, isCall := ev.(*ssa.Call); isCall && ic.Call.StaticCallee() == nil && !ic.Call.IsInvoke() {
+					// calling a check value directly: f() where f is a closure literal or the result of a check factory
+					if f := subFacts.checkClosureSuccess(sub, ic.Call.Value, depth+1); f != nil {
+						nilAtom = f
+					}
+				}
 				if ic, isCall := ev.(*ssa.Call); isCall {
 					if g := ic.Call.StaticCallee(); g != nil && g.Signature.Results().Len() == 1 {
 						if f := subFacts.errorSummary(g, ic, sub, depth+1); f != nil {
@@ -416,7 +454,7 @@ func (fa *Facts) errOfHelperCall(v ssa.Value) (*ssa.Call, *ssa.Function, bool) {
 			}
 		}
 	case *ssa.Call:
-		if g := x.Call.StaticCallee(); g != nil && g.Signature.Results().Len() == 1 && fa.p.errHelper(g) {
+		if g := x.Call.StaticCallee(); g != nil && g.Signature.Results().Len() == 1 && (fa.p.errHelper(g) || fa.p.firstFailureRunner(g)) {
 			return x, g, true
 		}
 	}
@@ -595,4 +633,177 @@ func (p *Prog) isTypesConverter(fn *ssa.Function) bool {
 		return false
 	}
 	return strings.Contains(n, "From") || strings.Contains(n, "To")
+}
+
+// firstFailureRunner: fn(checks []F) error (F a func() error type, possibly variadic) that ranges over its parameter, calls each
+// element and returns the first non-nil error, nil after the loop.
+var runnerMemo = map[*ssa.Function]int{}
+
+func (p *Prog) firstFailureRunner(fn *ssa.Function) bool {
+	if fn == nil || fn.Blocks == nil || !InModule(fn) || len(fn.Params) != 1 {
+		return false
+	}
+	if v := runnerMemo[fn]; v != 0 {
+		return v == 1
+	}
+	ok := func() bool {
+		sl, isSl := fn.Params[0].Type().Underlying().(*types.Slice)
+		if !isSl {
+			return false
+		}
+		sig, isFn := sl.Elem().Underlying().(*types.Signature)
+		if !isFn || sig.Params().Len() != 0 || sig.Results().Len() != 1 || sig.Results().At(0).Type().String() != "error" {
+			return false
+		}
+		res := fn.Signature.Results()
+		if res.Len() != 1 || res.At(0).Type().String() != "error" {
+			return false
+		}
+		// every call in the function is a call of an element of the parameter; every non-nil return returns such a call's
+		// result under `!= nil`; the nil return comes after the loop
+		nCalls := 0
+		for _, b := range fn.Blocks {
+			for _, in := range b.Instrs {
+				switch x := in.(type) {
+				case *ssa.Call:
+					if bi, isB := x.Call.Value.(*ssa.Builtin); isB && bi.Name() == "len" {
+						continue
+					}
+					u, isLoad := x.Call.Value.(*ssa.UnOp)
+					if !isLoad {
+						return false
+					}
+					ia, isIdx := u.X.(*ssa.IndexAddr)
+					if !isIdx || ia.X != ssa.Value(fn.Params[0]) {
+						return false
+					}
+					if !inCycle(x.Block()) {
+						return false
+					}
+					nCalls++
+				case *ssa.Return:
+					rv := x.Results[0]
+					if isNilConst(rv) {
+						if inCycle(x.Block()) {
+							return false
+						}
+						continue
+					}
+					c, isCall := rv.(*ssa.Call)
+					if !isCall {
+						return false
+					}
+					_ = c
+				case *ssa.Go, *ssa.Defer, *ssa.Store, *ssa.MapUpdate, *ssa.Send, *ssa.Panic:
+					return false
+				}
+			}
+		}
+		return nCalls == 1
+	}()
+	if ok {
+		runnerMemo[fn] = 1
+	} else {
+		runnerMemo[fn] = 2
+	}
+	return ok
+}
+
+// sliceLiteralElems: the element values of a slice built in place (variadic arguments or a composite literal).
+func sliceLiteralElems(v ssa.Value) ([]ssa.Value, bool) {
+	sl, ok := v.(*ssa.Slice)
+	if !ok {
+		return nil, false
+	}
+	al, ok := sl.X.(*ssa.Alloc)
+	if !ok {
+		return nil, false
+	}
+	arr, ok := al.Type().Underlying().(*types.Pointer).Elem().Underlying().(*types.Array)
+	if !ok {
+		return nil, false
+	}
+	elems := make([]ssa.Value, arr.Len())
+	refs := al.Referrers()
+	if refs == nil {
+		return nil, false
+	}
+	for _, rf := range *refs {
+		ia, ok := rf.(*ssa.IndexAddr)
+		if !ok {
+			continue
+		}
+		c, ok := ia.Index.(*ssa.Const)
+		if !ok {
+			return nil, false
+		}
+		if ir := ia.Referrers(); ir != nil {
+			for _, r2 := range *ir {
+				if st, ok := r2.(*ssa.Store); ok && st.Addr == ssa.Value(ia) {
+					if int(c.Int64()) < len(elems) {
+						elems[c.Int64()] = st.Val
+					}
+				}
+			}
+		}
+	}
+	for _, e := range elems {
+		if e == nil {
+			return nil, false
+		}
+	}
+	return elems, true
+}
+
+// checkClosureSuccess: the condition under which the check `e` (a closure literal, a plain function, or the closure returned by
+// a module factory function called with arguments) returns a nil error, in o's vocabulary.
+func (fa *Facts) checkClosureSuccess(o *Origin, e ssa.Value, depth int) *Formula {
+	for {
+		if ct, ok := e.(*ssa.ChangeType); ok {
+			e = ct.X
+			continue
+		}
+		break
+	}
+	switch x := e.(type) {
+	case *ssa.MakeClosure:
+		sub := o.ClosureOrigin(x)
+		sub.depth = o.depth + 1
+		sub.site = o.site + fa.p.Pos(x.Pos()) + ">"
+		return fa.successOfBody(x.Fn.(*ssa.Function), sub, depth)
+	case *ssa.Function:
+		sub := NewOrigin(fa.p, x)
+		sub.depth = o.depth + 1
+		return fa.successOfBody(x, sub, depth)
+	case *ssa.Call:
+		g := x.Call.StaticCallee()
+		if g == nil || !InModule(g) || g.Blocks == nil || fa.p.IsGenerated(g) {
+			return nil
+		}
+		// a factory: every return hands back the same closure literal
+		var mc *ssa.MakeClosure
+		for _, ret := range returnsOf(g) {
+			if len(ret.Results) != 1 {
+				return nil
+			}
+			rv := ret.Results[0]
+			if ct, ok := rv.(*ssa.ChangeType); ok {
+				rv = ct.X
+			}
+			m, ok := rv.(*ssa.MakeClosure)
+			if !ok || (mc != nil && mc != m) {
+				return nil
+			}
+			mc = m
+		}
+		if mc == nil || len(g.Blocks) != 1 {
+			return nil
+		}
+		subF := o.subOrigin(x, g)
+		sub := subF.ClosureOrigin(mc)
+		sub.depth = o.depth + 1
+		sub.site = subF.site
+		return fa.successOfBody(mc.Fn.(*ssa.Function), sub, depth)
+	}
+	return nil
 }
